@@ -489,25 +489,26 @@ func sortEntries(p geom.Point, entries []entry) ([]entry, []float64) {
 }
 
 func pruneEntries(p geom.Point, entries []entry, minDists []float64) []entry {
-	// (+Inf rather than MaxFloat64: the squared distances overflow to +Inf for
-	// points more than about 1e154 away, and then nothing may be pruned.)
+	// The distances are compared as distances (math.Hypot), like the ones
+	// the objects are ranked by: their squares overflow to +Inf for points
+	// more than about 1e154 away and lose their digits (denormal numbers)
+	// below 1e-154, and then entries holding the nearest object were pruned.
 	minMinMaxDist := math.Inf(1)
 	for i := range entries {
-		minMaxDist := minMaxDist(p, entries[i].bb)
-		// MINMAXDIST is never smaller than MINDIST; cancellation in its
-		// formula for far-away points must not break that, or every entry
-		// (including the one holding the nearest object) could be pruned.
-		if minMaxDist < minDists[i] {
-			minMaxDist = minDists[i]
+		d := boxMinMaxDist(p, entries[i].bb)
+		// MINMAXDIST is never smaller than MINDIST; rounding must not break
+		// that, or an entry could be pruned on the strength of its own bound.
+		if md := boxDist(p, entries[i].bb); d < md {
+			d = md
 		}
-		if minMaxDist < minMinMaxDist {
-			minMinMaxDist = minMaxDist
+		if d < minMinMaxDist {
+			minMinMaxDist = d
 		}
 	}
 	// remove all entries with minDist > minMinMaxDist
 	pruned := []entry{}
 	for i := range entries {
-		if minDists[i] <= minMinMaxDist {
+		if boxDist(p, entries[i].bb) <= minMinMaxDist {
 			pruned = append(pruned, entries[i])
 		}
 	}
